@@ -161,7 +161,7 @@ pub fn prop() -> Prop {
         gen,
         check,
         panic_is_violation: false,
-        budget: (240_000, 6_000_000),
+        budget: (1440000, 36000000),
         extra: Some(extra),
         required: &["multi_line", "borrowed_seen", "owned_seen", "forced_break", "spaces_or_breaks_dropped"],
         known: Some(known),
